@@ -171,7 +171,18 @@ SigExisting(cfg, n, placed) ==
                                Oth(p) == {q \in placed : PKey(q) # PKey(p)}
                            IN LabelSig(cfg, {p \in placed : ~OrigRequired(cfg, p, L)}, Oth, L)
     ELSE IF ~x.taints THEN "taint"
-    ELSE IF ~x.ports THEN "hostport" ELSE IF ~x.vols THEN "volume-limit" ELSE "resources"
+    ELSE IF ~x.ports THEN "hostport" ELSE IF ~x.vols THEN "volume-limit"
+    ELSE \* resources: would it fit without the daemonsets Karpenter's existing-node path is known to overlook?
+         LET L     == NodeLabelling(n)
+             bound == BoundPods(cfg, n)
+             outst == {d \in Range(cfg.ds) : DaemonRuns(cfg, d, L, n.taints) /\ ~\E b \in bound : b.owner = "ds:" \o d.name}
+             laterTerm == {d \in outst : Len(d.terms) > 1 /\ ~TermHolds(cfg, d.terms[1], L)}
+             preferNS  == {d \in outst : \E t \in Range(n.taints) : t.effect = "PreferNoSchedule" /\ ~\E y \in Range(d.tol) : Tolerates(y, t)}
+             fitsWithout(D) == LeqRes(AddRes(SumReq(bound \cup placed), SumReq(outst \ D)), n.alloc)
+         IN IF laterTerm # {} /\ fitsWithout(laterTerm) THEN "resources:daemonset-admitted-by-later-or-term"
+            ELSE IF preferNS # {} /\ fitsWithout(preferNS) THEN "resources:daemonset-not-tolerating-prefer-no-schedule"
+            ELSE IF laterTerm \cup preferNS # {} /\ fitsWithout(laterTerm \cup preferNS) THEN "resources:daemonset-overlooked-on-existing-node"
+            ELSE "resources"
 
 ----------------------------------------------------------------------------
 (* G_C01_Claim: a new NodeClaim c of Results (claims record: pool, pods,    *)
